@@ -42,6 +42,7 @@ def gen_config(rng, tier, flavor="db"):
         "cache": rng.random() < 0.7,
         "adv_rate": rng.choice([0.0, 0.3, 1.0]),
         "unsorted_start": rng.random() < 0.3,
+        "dup_haplotype": rng.random() < 0.06,
     }
     if space < 2:
         cfg["n_alleles"][0] = 2
@@ -78,6 +79,9 @@ def gen_instance(cfg):
         haps.add(tuple(rng.randrange(a) for a in n_alleles))
     haps = sorted(haps)
     rng.shuffle(haps)
+    if cfg.get("dup_haplotype") and len(haps) >= 2:
+        # two alleles with the same sequence (legal for the API: alleles are labels)
+        haps[-1] = haps[0]
     haplotypes = np.array(haps, dtype=np.int8)
     n_reads = cfg["n_reads"]
     reads = np.zeros((n_reads, n_pos, amax), dtype=np.float64)
@@ -201,6 +205,16 @@ class CallSim:
                 init = None if cfg["initial"] == "greedy" else self.start_state(0)
                 trace = model.fit(self.reads, read_counts=self.counts, initial=init)
                 self.result = ("fit", trace)
+                # what fit() returns must be the states the sampler held (every chain, every step)
+                G = np.asarray(trace.genotypes)
+                if len(self.history) != cfg["chains"] or any(len(h) != cfg["steps"] for h in self.history):
+                    self.viol("trace_accounting", "CallingMCMC.fit ran %r sampler steps per chain, expected %d chains x %d steps" % ([len(h) for h in self.history], cfg["chains"], cfg["steps"]))
+                if G.shape != (cfg["chains"], cfg["steps"], cfg["ploidy"]):
+                    self.viol("trace_accounting", "CallingMCMC.fit returned a trace of shape %r" % (G.shape,))
+                for c, h in enumerate(self.history):
+                    for i, st in enumerate(h):
+                        if not np.array_equal(G[c, i], st):
+                            self.viol("trace_state_mismatch", "fit() trace[%d,%d] is not the state the sampler held after that step" % (c, i), trace=G[c, i], expected=st)
             elif cfg["entry"] == "sampler":
                 traces = []
                 for c in range(cfg["chains"]):
@@ -273,12 +287,26 @@ class CallSim:
         self.scan = []
         if self.cur_chain is not None and self.cfg["entry"] != "steps":
             self.ctx.step = len(self.cur_chain["states"])
-        llk = self.real["compound"](**a)
+        # draw-level verification: the vector each move is actually drawn from (not merely what
+        # gibbs_options returned at some point) must be the exact full conditional of the state at that moment
+        pending = []
+        gibbs = int(a["step_type"]) == 0
+
+        def on_choice(vec, idx):
+            pending.append((np.array(vec), g.copy(), idx))
+
+        self.rng.on_choice = on_choice if ("db" in self.checks and gibbs) else None
+        try:
+            llk = self.real["compound"](**a)
+        finally:
+            self.rng.on_choice = None
+        for vec, before, idx in pending:
+            self.check_gibbs_draw(vec, before, idx)
         scan, self.scan = self.scan, None
         self.ctx.log.add("compound", g, float(llk), scan)
         pl = len(g)
-        if sorted(scan) != list(range(pl)):
-            self.viol("scan_not_exactly_once", "compound step resampled allele positions %r, expected each of 0..%d once" % (scan, pl - 1))
+        # informational only: the statement does not require a full sweep, only that every move is stationary
+        self.ctx.counters.inc("sweeps_full" if sorted(scan) == list(range(pl)) else "sweeps_partial_or_repeated")
         if any(g[i] > g[i + 1] for i in range(pl - 1)):
             self.viol("state_not_sorted", "genotype after compound step is not sorted: %r" % g.tolist())
         if "db" in self.checks:
@@ -331,6 +359,30 @@ class CallSim:
                           x=x, position=k, vector=vec, expected=want, inbreeding=self.F, freqs=self.fl)
             self.ctx.key("gibbs", len(x), tuple(self.cfg["n_alleles"]), nh, ref.allele_key(x), int(x[k]), self.F, self.cfg["freqs"])
         return out
+
+    def check_gibbs_draw(self, vec, before, idx):
+        """`vec` was used to redraw ONE copy of `before`: it must be the exact conditional given the other
+        copies, for some allele currently present (the position is not observable at the draw)."""
+        nh = len(self.haps)
+        if len(vec) != nh:
+            self.viol("gibbs_draw_not_full_conditional", "a Gibbs move was drawn from a vector of length %d for %d haplotypes" % (len(vec), nh))
+        best = None
+        for old in sorted(set(int(v) for v in before)):
+            pos = [i for i in range(len(before)) if int(before[i]) == old][0]
+            cond = []
+            for al in range(nh):
+                y = before.copy()
+                y[pos] = al
+                cond.append(self.lord(y))
+            want = ref.normalise_logs(cond)
+            dev = max(abs(float(vec[i]) - want[i]) for i in range(nh))
+            best = dev if best is None else min(best, dev)
+            if dev <= TOL_P:
+                self.ctx.counters.inc("gibbs_draws_verified")
+                return
+        self.viol("gibbs_draw_not_full_conditional",
+                  "the vector a Gibbs move was drawn from is not the exact full conditional of any copy of the current genotype (best deviation %.3g)" % best,
+                  state=before, vector=vec, inbreeding=self.F, freqs=self.fl)
 
     def _probe_mh(self, a, y, k):
         np = self.np
